@@ -15,6 +15,9 @@ spec["str_conds"] = [ [file, function, anchor-regex, gallina-name, [string param
     like conds, but the expression may call strncmp(s1, s2, LEN) with s1, s2 among the string parameters and LEN an
     integer expression that may contain strlen(s); they become H4.ANLang.strncmp / strlen on byte lists
                                                    ->  Definition <name> (strings : list Z) (ints : Z) : Z
+spec["index_lists"] = [ [file, function, regex, gallina-name] ]
+    every match of the regex in the function body, group 1 = a constant array index (an enumerator)
+                                ->  Definition <name> : list Z   (in source order; no match is an error)
 spec["entry_fields"] = [ [file, function, anchor-regex, gallina-name] ]
     the anchor (exactly one match in the function body) captures the ANentry field that is read: annref / elmtag /
     elmref / ann_id            ->  Definition <name> : Z := 0 / 1 / 2 / 3
@@ -137,6 +140,14 @@ def emit(repo, spec, H):
         out.append("(* %s: %s: %s *)" % (f, fn, _c(cexpr)))
         out.append("Definition %s %s %s : Z := %s." % (name, " ".join("(%s : list Z)" % p_ for p_ in sparams),
                                                      " ".join("(%s : Z)" % p_ for p_ in iparams), term))
+    for f, fn, rx, name in spec.get("index_lists", []):
+        body = H.func_body(H.src(repo, f), fn)
+        env = _env(repo, f, H)
+        ms = re.findall(rx, body)
+        if not ms:
+            raise ValueError("%s:%s: %r does not occur" % (f, fn, rx))
+        out.append("(* %s: %s: indices matched by %s *)" % (f, fn, _c(rx)))
+        out.append("Definition %s : list Z := [%s]." % (name, "; ".join(H.zlit(H.ceval(m, env)) for m in ms)))
     for f, fn, anchor, name in spec.get("entry_fields", []):
         body = H.func_body(H.src(repo, f), fn)
         ms = list(re.finditer(anchor, body))
